@@ -156,8 +156,17 @@ def hyp_shard(part, tier, shard, nshards, seed, stats, deadline, known, examples
     stats.done += done
 
 
+MEM_LIMIT = int(os.environ.get("VERIF_MEM_GB", "5")) << 30
+
+
 def run_task(args):
     pid, part_name, tier, shard, nshards, seed, deadline, examples = args
+    try:
+        import resource
+
+        resource.setrlimit(resource.RLIMIT_AS, (MEM_LIMIT, MEM_LIMIT))  # runaway allocation in the code under test -> MemoryError, not a dead box
+    except Exception:  # noqa
+        pass
     try:
         mod = load_prop(pid)
         part = [p for p in mod.PARTS if p.name == part_name][0]
@@ -298,8 +307,16 @@ def main(argv=None):
     if tasks:
         ctxmp = multiprocessing.get_context("fork")
         with ctxmp.Pool(min(a.jobs, len(tasks)), maxtasksperchild=1) as pool:
-            for r in pool.imap_unordered(run_task, tasks, chunksize=1):
-                results.append(r)
+            it = pool.imap_unordered(run_task, tasks, chunksize=1)
+            grace = 120.0 if a.tier == "quick" else 600.0
+            for _ in tasks:
+                try:
+                    results.append(it.next(timeout=max(5.0, deadline + grace - time.time())))
+                except multiprocessing.TimeoutError:
+                    # a worker is stuck (non-terminating call in the code under test or in the harness): inconclusive, not a violation
+                    harness_errors.append("workers still running %.0fs after the tier cap; %d of %d shards finished (hang in the code under test or harness) - inconclusive" % (grace, len(results), len(tasks)))
+                    pool.terminate()
+                    break
     results.sort(key=lambda r: (r["part"], r["shard"]))
 
     # ---------------------------------------------------------------- aggregate
